@@ -825,7 +825,18 @@ def m_vec_into_iter(I, st, inst, args):
     return Opaque("VecIntoIter", (v.elems, 0))
 
 
-@model("<std::vec::IntoIter<*> as std::iter::Iterator>::next", "<std::collections::hash_set::Iter<*> as std::iter::Iterator>::next",
+@model("std::array::iter::<impl std::iter::IntoIterator for [*]>::into_iter", "core::array::iter::<impl std::iter::IntoIterator for [*]>::into_iter")
+def m_array_into_iter(I, st, inst, args):
+    """by-value iteration over an array: the same cursor as vec::IntoIter (std's body goes through MaybeUninit transmutes)"""
+    v = args[0]
+    if isinstance(v, Lazy):
+        v = I.lazy.expand(I, st, v, None)
+    if not isinstance(v, Agg):
+        raise Unsupported("array into_iter of %r" % (v,))
+    return Opaque("VecIntoIter", (tuple(v.f), 0))
+
+
+@model("<std::vec::IntoIter<*> as std::iter::Iterator>::next", "<std::array::IntoIter<*> as std::iter::Iterator>::next", "<std::collections::hash_set::Iter<*> as std::iter::Iterator>::next",
        "<std::collections::hash_set::IntoIter<*> as std::iter::Iterator>::next", "<std::collections::btree_set::Iter<*> as std::iter::Iterator>::next")
 def m_vec_into_iter_next(I, st, inst, args):
     it = I.read(st, args[0])
